@@ -71,7 +71,7 @@ mutual
       by_cases hk : k.handle = h
       · have := findList?_cons_self hk e
         subst this
-        simp only [hk, if_true, handlesList, handlesList_append, List.count_append]
+        simp only [hk, if_true, handlesList, fa_handlesList_append, List.count_append]
         omega
       · simp only [hk, if_false]
         cases hf : find? h k with
@@ -105,7 +105,7 @@ theorem parentKids_append (x p : Nat) : ∀ (A B : List HTree),
       | some q => rfl
       | none => exact parentKids_append x p A B
 
-theorem findList?_append (x : Nat) : ∀ (A B : List HTree),
+theorem fa_findList?_append (x : Nat) : ∀ (A B : List HTree),
     findList? x (A ++ B) = match findList? x A with
       | some q => some q
       | none => findList? x B
@@ -114,7 +114,7 @@ theorem findList?_append (x : Nat) : ∀ (A B : List HTree),
     simp only [List.cons_append, findList?]
     cases find? x a with
     | some q => rfl
-    | none => exact findList?_append x A B
+    | none => exact fa_findList?_append x A B
 
 mutual
   /-- Frame: the parent of a node outside the replaced subtree and outside what replaces it. -/
@@ -195,7 +195,7 @@ mutual
       · have := findList?_cons_self hk e
         subst this
         simp only [hk, if_true]
-        rw [findList?_append, (findList?_none_iff _ _).2 hF]
+        rw [fa_findList?_append, (findList?_none_iff _ _).2 hF]
         simp only [findList?, (find?_none_iff _ _).2 hx]
       · simp only [hk, if_false]
         cases hf : find? h k with
